@@ -40,7 +40,7 @@ struct vf_ec_ghost {
 	struct { _Bool fail; unsigned calls; } st;
 	struct { int st; unsigned n; unsigned long d, curve, res; } mult_bp;
 	struct { int st; unsigned n; unsigned long Gd, b, bd, curve, res; } twin;
-	struct { int st; unsigned n; unsigned long point, d, curve; } unkpt;
+	struct { int st; unsigned n; unsigned long point, d, curve; int inf; } unkpt;
 	struct { int st; unsigned n; unsigned long point, curve; } chk_pub;
 	struct { int st; unsigned n; } chk_affine, chk_scalar;
 	struct { int st; unsigned n; int odd; unsigned long point; } restore_y;
@@ -49,6 +49,7 @@ struct vf_ec_ghost {
 	struct { unsigned n; unsigned long dst[VF_IO_LOG], src[VF_IO_LOG]; } assign;
 	struct { unsigned n; unsigned long bn[2], m[2]; } reduce;
 	struct { unsigned n; unsigned long d, bn, m; } mult_digit;
+	struct { unsigned n; unsigned long a, b; int r; } cmp;
 	struct { unsigned n; unsigned long buf[VF_IO_LOG]; size_t size[VF_IO_LOG]; unsigned long bn[VF_IO_LOG]; } imp, exp;
 } vf_g;
 
@@ -71,6 +72,7 @@ struct vf_ec_ghost {
 #define vf_unkpt_point		vf_g.unkpt.point
 #define vf_unkpt_d		vf_g.unkpt.d
 #define vf_unkpt_curve		vf_g.unkpt.curve
+#define vf_unkpt_inf		vf_g.unkpt.inf	/* infinity flag of its result */
 #define vf_st_chk_pub		vf_g.chk_pub.st
 #define vf_n_chk_pub		vf_g.chk_pub.n
 #define vf_chk_pub_point	vf_g.chk_pub.point
@@ -129,6 +131,11 @@ struct vf_ec_ghost {
 #define vf_n_reduce		vf_g.reduce.n
 #define vf_reduce_bn		vf_g.reduce.bn
 #define vf_reduce_m		vf_g.reduce.m
+/* last bn_cmp: operands and result */
+#define vf_n_cmp			vf_g.cmp.n
+#define vf_cmp_a		vf_g.cmp.a
+#define vf_cmp_b		vf_g.cmp.b
+#define vf_cmp_r		vf_g.cmp.r
 #define vf_n_mult_digit		vf_g.mult_digit.n
 #define vf_mult_digit_d		vf_g.mult_digit.d
 #define vf_mult_digit_bn	vf_g.mult_digit.bn
